@@ -23,7 +23,7 @@ type d12Fault struct {
 	Kind   string `json:"kind"`
 }
 
-var d12APIFaults = []string{"500", "422", "410", "504-before", "504-after", "transport-before", "transport-after"}
+var d12APIFaults = []string{"500", "422", "410", "404-on-create", "409conflict-on-create", "504-before", "504-after", "transport-before", "transport-after"}
 var d12HookFaults = []string{"500", "503", "refused", "garbage", "429"}
 var d12Races = []string{"race-delete", "race-create", "race-edit"}
 
@@ -136,6 +136,17 @@ func d12Run(t *testing.T, fin bool, f *d12Fault, ref *d12Ref) *d12Ref {
 					return &sim.Fault{Code: 422}
 				case "410":
 					return &sim.Fault{Code: 410}
+				case "404-on-create", "409conflict-on-create":
+					// a create refused for another reason than "already exists" (namespace gone, ...)
+					// is not one of the benign races
+					if ri.Verb != "create" {
+						atomic.StoreInt32(&fired, 2) // not applicable at this position
+						return nil
+					}
+					if f.Kind == "404-on-create" {
+						return &sim.Fault{Code: 404, Reason: "NotFound"}
+					}
+					return &sim.Fault{Code: 409, Reason: "Conflict"}
 				case "504-before":
 					return &sim.Fault{Code: 504}
 				case "504-after":
